@@ -14,6 +14,7 @@ import LispModel.IntArithDriver
 import LispModel.TyCtorDriver
 import LispModel.LNotDriver
 import LispModel.EnvAlgDriver
+import LispModel.ReplLoopDriver
 open LispModel
 
 def splitBar (s : String) : List String := s.splitOn " | "
@@ -378,6 +379,7 @@ def handleS (base : State) (line : String) : State × String :=
   | ["hist", payload] => (base, runHist base payload)
   | ["pos", payload] => (base, runPos base payload)
   | ["routes", payload] => (base, runRoutes base payload)
+  | ["replloop", payload] => (base, ReplLoop.handleReplLoop base payload)  -- C16/C19 support, see LispModel/ReplLoopDriver.lean
   | _ => (base, handle line)
 
 partial def loop (h : IO.FS.Stream) (out : IO.FS.Stream) (base : State) : IO Unit := do
